@@ -213,7 +213,7 @@ func checkC08(cx *Ctx, r *Report) {
 				}
 			}
 		}
-		r.Check(nEF >= 3, "R-EMIT", "#ErrorFunc", "", fmt.Sprintf("%d error reporters of reply objects", nEF), fmt.Sprintf("only %d functions are stored as ErrorFunc of a reply object (the SSO, callback and logout handlers each set one)", nEF))
+		r.Check(nEF >= 1, "R-EMIT", "#ErrorFunc", "", fmt.Sprintf("%d error reporters of reply objects", nEF), "no function is stored as ErrorFunc of a reply object any more")
 	}
 	// the reply of one request cannot be overwritten or prefixed by another request's (pooled buffers)
 	cx.checkPoolEscape(r)
